@@ -23,6 +23,9 @@ pub enum Inj {
   BadRepId { id: u32 },
   /// dispose naming a key hash the reader has never seen (payload-less DATA)
   UnknownKeyHash { key: u32 },
+  /// payload-less DATA with a never-seen key hash whose StatusInfo says neither disposed nor unregistered:
+  /// absent, 0, or FILTERED (4) only. Legal on the wire (a writer-side content filter sends the last one), not a sample.
+  OddStatus { key: u32, status: Option<u32> },
 }
 
 #[derive(Clone, Debug)]
@@ -273,6 +276,14 @@ fn build_data(w: usize, keyed: bool, sn: i64, inj: &Inj, reader_eid: [u8; 4], ts
       writer_id: weid,
       sn,
       inline_qos: Some(InlineQos { key_hash: Some(wire::vkey_hash(*key)), status_info: Some(1), extra: vec![] }),
+      payload: None,
+      key_flag: false,
+    },
+    Inj::OddStatus { key, status } => DataMsg {
+      reader_id: reader_eid,
+      writer_id: weid,
+      sn,
+      inline_qos: Some(InlineQos { key_hash: Some(wire::vkey_hash(*key)), status_info: status.map(|s| s as u8), extra: vec![] }),
       payload: None,
       key_flag: false,
     },
@@ -628,10 +639,11 @@ pub fn gen_case_c09(rng: &mut Rng) -> ApiCase {
   for i in 0..n {
     let w = rng.below(nwriters as u64) as usize;
     let inj = if bad_pos.contains(&i) {
-      match rng.below(if keyed { 3 } else { 2 }) {
+      match rng.below(if keyed { 4 } else { 2 }) {
         0 => Inj::BadCdr { id: 0xBAD0 + i as u32 },
         1 => Inj::BadRepId { id: 0xBAD0 + i as u32 },
-        _ => Inj::UnknownKeyHash { key: 0x7000 + i as u32 },
+        2 => Inj::UnknownKeyHash { key: 0x7000 + i as u32 },
+        _ => Inj::OddStatus { key: 0x7000 + i as u32, status: *rng.pick(&[None, Some(0u32), Some(4)]) },
       }
     } else {
       id += 1;
@@ -668,6 +680,7 @@ fn gen_op_drain(rng: &mut Rng, flavor: Flavor) -> ReadOp {
 }
 
 pub struct C09Outcome {
+  pub odd_status_injected: u64,
   pub errors_reported: u64,
   pub bad_injected: u64,
   pub delivered: u64,
@@ -687,8 +700,9 @@ pub fn run_case_c09(case: &ApiCase, acc: &mut Acc, tag: &Value, rng: &mut Rng, b
   // expected deliveries: value ids and dispose keys, each exactly once
   let mut expect_vals: BTreeMap<u32, u32> = BTreeMap::new(); // id -> times delivered
   let mut expect_disp: BTreeMap<u32, u32> = BTreeMap::new();
-  let mut out = C09Outcome { errors_reported: 0, bad_injected: 0, delivered: 0, sig: 0 };
+  let mut out = C09Outcome { odd_status_injected: 0, errors_reported: 0, bad_injected: 0, delivered: 0, sig: 0 };
   let mut reportable_bad = 0u64; // BadCdr / BadRepId injected
+  let mut maybe_reportable = 0u64; // OddStatus injected
   let mut sigbuf = vec![];
   let mut do_op = |rb: &mut ReaderBench, op: &ReadOp, acc: &mut Acc, out: &mut C09Outcome, expect_vals: &mut BTreeMap<u32, u32>, expect_disp: &mut BTreeMap<u32, u32>, step_no: usize| -> usize {
     let label = format!("{op:?}");
@@ -764,6 +778,13 @@ pub fn run_case_c09(case: &ApiCase, acc: &mut Acc, tag: &Value, rng: &mut Rng, b
             out.bad_injected += 1;
             sigbuf.push(5);
           }
+          Inj::OddStatus { status, .. } => {
+            // reported or skipped: both are fine, so it adds to the allowance without being owed
+            maybe_reportable += 1;
+            out.bad_injected += 1;
+            out.odd_status_injected += 1;
+            sigbuf.push(6 + status.map_or(0, |s| 1 + s as u8));
+          }
           _ => {}
         }
       }
@@ -790,8 +811,8 @@ pub fn run_case_c09(case: &ApiCase, acc: &mut Acc, tag: &Value, rng: &mut Rng, b
     }
     guard += 1;
   }
-  if out.errors_reported > reportable_bad {
-    acc.violate("C09/report:bad-change-reported-more-than-once", json!({"errors": out.errors_reported, "bad_changes": reportable_bad}), replay());
+  if out.errors_reported > reportable_bad + maybe_reportable {
+    acc.violate("C09/report:bad-change-reported-more-than-once", json!({"errors": out.errors_reported, "bad_changes": reportable_bad + maybe_reportable}), replay());
   }
   for (id, c) in &expect_vals {
     if *c == 0 {
